@@ -277,6 +277,25 @@ impl MulSpecImpl<Translation3> for Isometry3 {
     open spec fn mul_req(self, rhs: Translation3) -> bool { true }
     open spec fn mul_spec(self, rhs: Translation3) -> Isometry3 { iso_mul_tr_s(self, rhs) }
 }
+// inverses of the parts of an isometry and the product Isometry3 * UnitQuaternion (not used by tool.rs / frame.rs in the pinned
+// tree): deterministic, otherwise unconstrained - a change that composes a pose "by parts" fails the wrapper contracts
+pub uninterp spec fn quat_inv_s(a: UnitQuaternion) -> UnitQuaternion;
+pub uninterp spec fn tr_inv_s(a: Translation3) -> Translation3;
+pub uninterp spec fn iso_mul_q_s(a: Isometry3, q: UnitQuaternion) -> Isometry3;
+impl UnitQuaternion {
+    #[verifier::external_body]
+    pub fn inverse(&self) -> (r: UnitQuaternion) ensures r == quat_inv_s(*self) { unimplemented!() }
+}
+impl Translation3 {
+    #[verifier::external_body]
+    pub fn inverse(&self) -> (r: Translation3) ensures r == tr_inv_s(*self) { unimplemented!() }
+}
+impl core::ops::Mul<UnitQuaternion> for Isometry3 { type Output = Isometry3; #[verifier::external_body] fn mul(self, rhs: UnitQuaternion) -> Isometry3 { unimplemented!() } }
+impl MulSpecImpl<UnitQuaternion> for Isometry3 {
+    open spec fn obeys_mul_spec() -> bool { true }
+    open spec fn mul_req(self, rhs: UnitQuaternion) -> bool { true }
+    open spec fn mul_spec(self, rhs: UnitQuaternion) -> Isometry3 { iso_mul_q_s(self, rhs) }
+}
 impl core::ops::Deref for UnitVector3 { type Target = Vector3; #[verifier::external_body] fn deref(&self) -> (r: &Vector3) ensures *r == self.value { unimplemented!() } }
 
 // ---- points (frame.rs) ------------------------------------------------------------------------
